@@ -522,6 +522,8 @@ def main(run: Run):
     from . import C19_frame
     from ..common import REPO
     C19_frame.add_to(run, REPO)
+    from . import C19_l1
+    C19_l1.add_to(run)
     return run.finish(
         explanation="Runtime contracts on construction/elaboration evaluated natively on enumerated configurations of every "
                     "component class (three elaborations of one instance, RTLIL compared, memory map compared), with a termination "
